@@ -68,9 +68,14 @@ def load_known():
 
 
 def known_match(kf, pid, family, diffline):
-    if kf.get("status") != "known" or kf.get("property") != pid:
+    if kf.get("status") != "known":
         return False
-    if kf.get("family") and kf["family"] != family:
+    # a finding recorded for a family applies wherever that family's workload is re-run (e.g. the reach
+    # family under another compute-table configuration for C07); otherwise it is tied to its property
+    if kf.get("family"):
+        if kf["family"] != family:
+            return False
+    elif kf.get("property") != pid:
         return False
     return re.search(kf["match"], diffline) is not None
 
